@@ -10,7 +10,8 @@ from harness.core import hx, unhx, Violation, excname
 LEAN_TARGETS = ["PoorProofs.Props.C10"]
 AUDIT_IMPORTS = ["PoorProofs.Props.C10"]
 LEAN_FILES = ["PoorModel/Query.lean", "PoorProofs/Lemmas/Query.lean", "PoorProofs/Props/C10.lean", "PoorModel/Json.lean",
-              "PoorProofs/Lemmas/Json.lean", "PoorProofs/Lemmas/JsonAny.lean", "PoorProofs/Props/JsonCodec.lean"]
+              "PoorProofs/Lemmas/Json.lean", "PoorProofs/Lemmas/JsonAny.lean", "PoorProofs/Props/JsonCodec.lean",
+              "PoorModel/ReadAll.lean", "PoorProofs/Lemmas/ReadAll.lean"]
 THEOREMS = ["Poor.Query.unquote_Enc", "Poor.Query.quotePlus_Enc", "Poor.Props.C10.C10_json_value",
             "Poor.Props.C10.C10_json_any_spelling", "Poor.Json.loads_txt", "Poor.Json.Txt_dump", "Poor.Json.scanStr_enc",
             "Poor.Props.JsonCodec.loadBytes_dumpBytes",
@@ -24,6 +25,8 @@ THEOREMS = ["Poor.Query.unquote_Enc", "Poor.Query.quotePlus_Enc", "Poor.Props.C1
             "Poor.Props.C10.C10_blank",
             "Poor.Props.C10.C10_json_accessors",
             "Poor.Props.C10.C10_reads_prefix", "Poor.Props.C10.C10_reads_conserve",
+            "Poor.ReadAll.readLength_spec", "Poor.Props.C10.C10_body_in_pieces", "Poor.Props.C10.C10_body_cut_short",
+            "Poor.Props.C10.C10_json_in_pieces",
             "Poor.Props.C10.C10_taken_le",
             "Poor.Props.C10.C10_taken_prefix",
             "Poor.Props.C10.C10_no_body_no_read",
@@ -37,6 +40,9 @@ TRUSTED_BASE = ["model Poor.Query: urllib.parse.unquote/parse_qsl/parse_qs/quote
                 "json.loads is an external function: the model starts from the value it returns",
                 "Args / FieldStorage(read_urlencoded) / JsonDict / JsonList accessors and the body plan of Request.__init__ "
                 "hand-written from request.py:384-480, 719-735, 783-794 and fieldstorage.py:35-108, 233-395, 549-562",
+                "model Poor.ReadAll of fieldstorage.read_length (the loop that takes a body arriving in pieces), hand-written "
+                "and compared with the real function on scripted inputs on every run; that the three call sites (auto_data "
+                "buffer, Request.read, read_urlencoded) use it is observed by the stream oracle, not modelled",
                 "multipart bodies are read line by line: their byte budget is the reader contract of C09 and the parser of C08; "
                 "the oracle here measures it on an instrumented stream"]
 ASSUMPTIONS = ["valid JSON = accepted by CPython's json.loads (which also accepts NaN/Infinity)",
@@ -307,6 +313,19 @@ def observe(case):
             elif isinstance(v, JsonList):
                 v = list(v)
             return JC.show(v)
+        if t[1] == "rl":
+            # `rl <input> <length> <script>`: read_length on an input whose i-th read hands over at most script[i]+1 bytes
+            from poorwsgi.fieldstorage import read_length
+            src, n = io.BytesIO(unhx(t[2])), int(t[3])
+            script = [] if t[4] == "none" else [int(x) for x in t[4].split(",")]
+            asked = []
+
+            def read(k):
+                asked.append(k)
+                m = min(k, script.pop(0) + 1) if script else k
+                return src.read(m)
+            d = read_length(read, n)
+            return "%s %d %s" % (hx(d), len(src.getvalue()) - src.tell(), ",".join(map(str, asked)))
         if t[1] == "reads":
             # `reads <content-length> <stream> <k,k,..> <auto_data> <data_size> <cached_size>`: the handler reads a body the
             # framework does not parse, piece by piece
@@ -406,6 +425,8 @@ def to_model(case):
         return []
     if t[1] == "jl":
         return ["JS load " + t[2]]
+    if t[1] == "rl":
+        return ["RL " + " ".join(t[2:])]
     if t[1] == "reads":
         return [" ".join(t[:5])]       # buffering settings do not matter to the model
     if t[1] == "args":
@@ -504,6 +525,12 @@ def generate(rng, tier):
         envp = [(k, "7" if k == "CONTENT_LENGTH" else rng.choice(["v", "text/html; charset=utf-8", "é", "", " a ", "V"])) for k in ks]
         cases.append("C10 hdr %s %s" % (pairs_tok(envp), hx(rng.choice(look))))
         cases.append("C10 hdrs %s" % pairs_tok(envp))
+    # read_length against its model: inputs shorter, equal and longer than the length, any script of short reads
+    for _ in range(1500 if big else 300):
+        src = bytes(rng.randrange(256) for _ in range(rng.choice([0, 1, 2, 3, 5, 8, 13, 40])))
+        n = rng.choice([0, 1, 2, len(src), len(src), max(len(src) - 1, 0), len(src) + 1, len(src) + 7, rng.randrange(0, 50)])
+        script = [rng.choice([0, 0, 1, 2, 4, 100]) for _ in range(rng.randrange(0, 12))]
+        cases.append("C10 rl %s %d %s" % (hx(src), n, ",".join(map(str, script)) or "none"))
     # end-to-end oracle cases
     for i in range(1500 if big else 300):
         cases.append("C10 e2e %d" % rng.randrange(1 << 30))
